@@ -280,6 +280,16 @@ theorem C14_witness_spin (fuel : Nat) :
   | zero => rfl
   | succ k ih => simp [acceptLoop, ih]
 
+/-- **refused_session_released**: a session whose handshake the server refused is closed by the server whatever the
+    peer does afterwards — also when it never sends another byte and never hangs up. -/
+theorem C14_refused_session_released (moves : Nat) : refusalRun refusalSteps moves = true := by
+  have h : refusalSteps = [RStep.close] := by decide
+  rw [h]; rfl
+
+/-- **witness_refusal_waits**: a branch that first swallows what the peer still sends (until it hangs up) never closes
+    the connection of a peer that stays silent with its end open. -/
+theorem C14_witness_refusal_waits : refusalRun [RStep.waitPeer, RStep.close] 0 = false := rfl
+
 /-! non-vacuity: a full run of the current configuration reaches a quiescent state with PipeData returned -/
 example : let c := genCfg .downOnly
     let s := run c (init [[1,2,3]] [[4]]) [.stepD, .stepD, .stepU, .stepU, .finDown, .stepD, .sendD, .recvD, .stepU, .sendU, .callerClose]
@@ -296,3 +306,5 @@ end SA.Pipe
 #print axioms SA.Pipe.C14_witness_target_left_open
 #print axioms SA.Pipe.C14_accept_loop_exits
 #print axioms SA.Pipe.C14_witness_spin
+#print axioms SA.Pipe.C14_refused_session_released
+#print axioms SA.Pipe.C14_witness_refusal_waits
